@@ -82,9 +82,15 @@ Notdef == <<N(0), N(250), C("hsbw"), C("endchar")>>
 
 \* ---- layouts
 Containers == {"pfa", "bin", "pfb", "clear"}
-LayoutSet == {[cont |-> c, leniv |-> l, names |-> nm, longnum |-> ln, enc |-> e] :
+\* eol: the line ends of the text portions (line feed, carriage return, both); fill: so many further
+\* glyphs (copies of the last one under other names: with 1500 of them the encrypted portion passes
+\* 64 KiB, the third byte of a PFB segment length)
+LayoutSet == {[cont |-> c, leniv |-> l, names |-> nm, longnum |-> ln, enc |-> e, eol |-> "lf", fill |-> 0] :
                  c \in Containers, l \in {0, 1, 4, 5}, nm \in {"RD", "bar"}, ln \in BOOLEAN, e \in {"std", "custom", "none"}}
-DefaultLayout == [cont |-> "pfa", leniv |-> 4, names |-> "RD", longnum |-> FALSE, enc |-> "std"]
+             \cup {[cont |-> c, leniv |-> 4, names |-> "RD", longnum |-> FALSE, enc |-> e, eol |-> el, fill |-> 0] :
+                      c \in Containers, e \in {"std", "custom", "none"}, el \in {"cr", "crlf"}}
+             \cup {[cont |-> c, leniv |-> 4, names |-> "RD", longnum |-> FALSE, enc |-> "std", eol |-> "lf", fill |-> 1500] : c \in Containers}
+DefaultLayout == [cont |-> "pfa", leniv |-> 4, names |-> "RD", longnum |-> FALSE, enc |-> "std", eol |-> "lf", fill |-> 0]
 
 \* ---- seac (DESIGN.md section 10: asb = sbx(composite) = sbx(accent))
 BaseA == <<N(30), N(500), C("hsbw"), N(20), N(0), C("rmoveto"), N(100), C("hlineto"), N(200), C("vlineto"), C("closepath"), C("endchar")>>
@@ -178,12 +184,16 @@ PickVariant ==
     /\ Family = "fontlevel" /\ phase = "pick"
     /\ \E bs \in {"omit", "50000", "39625"}, sh \in {"omit", "7", "3"}, fz \in {"omit", "1", "0"},
           fb \in {"omit", "true", "false"}, sd \in {"omit", "int", "real"}, ot \in {"omit", "set"},
-          ia \in {"0", "-12", "-12.5"}, fx \in BOOLEAN, st \in 1..Len(StrTable), dt \in Dates :
+          ia \in {"0", "-12", "-12.5"}, fx \in BOOLEAN, st \in 1..Len(StrTable), dt \in Dates, el \in {"lf", "cr", "crlf"},
+          ct \in {"pfa", "pfb", "clear"} :
           \* a covering subset instead of the full product: two fields vary freely, the others follow
           /\ (sh = "omit") = (bs = "omit") /\ (fz = "omit") = (fb = "omit") /\ (ot = "set") = fx
           /\ (sd = "omit") = (ia = "0")
+          \* other line ends with two of the strings and every date layout; the PFB container with those
+          /\ (el # "lf" => st \in {1, 11}) /\ (ct = "pfb") = (el = "cr") /\ (ct = "clear") = (el = "crlf")
           /\ stim' = [stim EXCEPT !.fl = [bs |-> bs, bshift |-> sh, bfuzz |-> fz, fb |-> fb, std |-> sd, other |-> ot,
-                                          ia |-> ia, fixed |-> fx, str |-> st, date |-> dt]]
+                                          ia |-> ia, fixed |-> fx, str |-> st, date |-> dt],
+                                  !.lay = [DefaultLayout EXCEPT !.eol = el, !.cont = ct]]
     /\ phase' = "laid"
 Next == PickGlyph \/ AddItem \/ PickLayout \/ PickSeac \/ GrowHostile \/ PickVariant
 
@@ -215,7 +225,7 @@ Vector ==
          glyphs |-> [name |-> <<".notdef", "A">>, toks |-> <<Notdef, stim.hostile>>],
          expect |-> <<>>]
     ELSE IF Family = "fontlevel" THEN
-        [fam |-> Family, lay |-> DefaultLayout, subrs |-> Subrs,
+        [fam |-> Family, lay |-> stim.lay, subrs |-> Subrs,
          glyphs |-> [name |-> <<".notdef", "A">>, toks |-> <<Notdef, BaseA>>],
          expect |-> <<GlyphRes(Dec(Notdef)), GlyphRes(Dec(BaseA))>>,
          variant |-> stim.fl, spelling |-> StrTable[stim.fl.str].sp, fontlevel |-> Expected(stim.fl)]
